@@ -3,8 +3,14 @@
 // Machine-checked contracts for package png (comment-only; read by /verif/bin/vcgo).
 package png
 
+// C06/C07/C08: the eXIf chunk is handed to the Exif reader exactly like a TIFF file: the stream is positioned at the chunk's
+// TIFF header, byte order and first-IFD offset are those stored in that header (isSigAt/sigLEat/sigBEat/le32At/be32At:
+// /verif/specs/tiff.spec), whatever way the reader chunks the stream (only io.ReadFull and Seek are used).
 //@ func ScanPngHeader
-//@   props C01 C02
+//@   props C01 C02 C06 C07 C08
 //@   entry
 //@   requires r != nil
+//@   ensures [C06 C07 C08] err == nil ==> isSigAt(r, pos(r)) && pos(r) + 8 <= lim(r) && header.TiffHeaderOffset == uint32(pos(r)) && header.FirstIfd == ifds.IFD0 && header.ImageType == imagetype.ImagePNG
+//@   ensures [C06 C07] err == nil && sigLEat(r, pos(r)) ==> header.ByteOrder == utils.LittleEndian && header.FirstIfdOffset == le32At(r, pos(r) + 4)
+//@   ensures [C06 C07] err == nil && sigBEat(r, pos(r)) ==> header.ByteOrder == utils.BigEndian && header.FirstIfdOffset == be32At(r, pos(r) + 4)
 //@   loop 0 decreases lim(r) - pos(r)
